@@ -237,7 +237,8 @@ pub fn analyse_project(main: &str, lib: &str, dir: &Path) -> Result<ProjectAnaly
     let flib = loaded.runner.file_library().clone();
     let mut findings = Vec::new();
     let mut invalid = Vec::new();
-    for r in loaded.parse_reports.iter().chain(collected.reports.iter()) {
+    // `analyze_all` hands the parse-stage reports to the collector first, as `main` does.
+    for r in collected.reports.iter() {
         let f = runner::finding_of(r, &flib);
         for (kind, labels) in [("primary", &f.primary), ("secondary", &f.secondary)] {
             for l in labels {
@@ -286,7 +287,11 @@ pub fn check_project(main: &str, lib: &str, reference: Option<&Vec<String>>, bin
     // inside a labelled construct.
     let dense = |f: &Finding| super::decor::by_text(f).split_whitespace().collect::<String>();
     let form = super::decor::sorted(a.findings.iter().map(|f| format!("{} {}", dense(f), super::decor::sorted(f.primary.iter().chain(f.secondary.iter()).map(|l| base_name(&l.file)).collect()).join(","))).collect());
-    if let Some(reference) = reference {
+    // A comment between `pragma` and `circom` (one terminal with exactly one blank) is a parse
+    // error, as is the same file with the comment blanked (C05 compares those two); such a variant
+    // has no findings to compare with the reference.
+    let parse_error = a.findings.iter().any(|f| f.id.starts_with('P') && f.level == "error");
+    if let Some(reference) = reference.filter(|r| !parse_error || r.iter().any(|k| k.starts_with('P'))) {
         if *reference != form {
             let missing: Vec<&String> = reference.iter().filter(|k| !form.contains(k)).collect();
             let extra: Vec<&String> = form.iter().filter(|k| !reference.contains(k)).collect();
